@@ -118,6 +118,17 @@ fn lbl(n: usize) -> String {
     format!("e{}", n)
 }
 
+/// "A bundle of one is that one": when exactly one single error was recorded, what comes back is that error itself -
+/// locating it again composes one path (`e0 at outer/p`), it is not a wrapper around it (`e0 at p at outer`).
+fn check_singleton(e: &Error, rec: &[Vec<String>], what: &str) -> Result<(), Fail> {
+    if rec.len() == 1 && rec[0].len() == 1 {
+        let base = rec[0][0].trim_end_matches(" at p").to_string();
+        let got = e.clone().at("outer").to_string();
+        ensure!(got == format!("{} at outer/p", base), "c05:bundle-of-one-is-not-that-one", "{}: the only recorded error `{}` comes back as `{}` after .at(\"outer\")", what, rec[0][0], got);
+    }
+    Ok(())
+}
+
 fn labels_of(e: Error) -> Vec<String> {
     e.flatten().into_iter().map(|x| x.to_string()).collect()
 }
@@ -163,7 +174,7 @@ fn check_inner(ctx: &Ctx, h: &History) -> Result<(), Fail> {
         if k <= 1 {
             let l = lbl(if repeat { *next / 2 % 2 } else { *next });
             *next += 1;
-            (Error::custom(&l), vec![l])
+            (Error::custom(&l).at("p"), vec![format!("{} at p", l)])
         } else {
             let ls: Vec<String> = (0..k)
                 .map(|_| {
@@ -173,8 +184,8 @@ fn check_inner(ctx: &Ctx, h: &History) -> Result<(), Fail> {
                 })
                 .collect();
             (
-                Error::multiple(ls.iter().map(Error::custom).collect()),
-                ls,
+                Error::multiple(ls.iter().map(|l| Error::custom(l).at("p")).collect()),
+                ls.iter().map(|l| format!("{} at p", l)).collect(),
             )
         }
     };
@@ -287,6 +298,7 @@ fn check_inner(ctx: &Ctx, h: &History) -> Result<(), Fail> {
                             e
                         );
                         let want: Vec<String> = rec.iter().flatten().cloned().collect();
+                        check_singleton(&e, &rec, "checkpoint()")?;
                         let n_direct = e.clone().into_iter().count();
                         let got = labels_of(e);
                         ensure!(
@@ -347,6 +359,7 @@ fn check_inner(ctx: &Ctx, h: &History) -> Result<(), Fail> {
                         e.len(),
                         want.len()
                     );
+                    check_singleton(&e, &rec, "finish")?;
                     let n_direct = e.clone().into_iter().count();
                     let got = labels_of(e);
                     ensure!(
